@@ -245,20 +245,79 @@ func successReturns(info *types.Info, g *cfg.CFG) []*cfg.Block {
 	return out
 }
 
+// nilOnSuccess (when set, with its type info): error variables that are nil all along a success path (a function
+// written with one shared `err` and `if err == nil { err = step() }` guards returns that variable at the end): a test
+// of such a variable against nil is followed on its nil side only.
+var nilOnSuccess map[types.Object]bool
+var nilOnSuccessInfo *types.Info
+
 func reachable(from *cfg.Block, skip map[*cfg.Block]bool) map[*cfg.Block]bool {
 	seen := map[*cfg.Block]bool{}
+	nilSide := func(b *cfg.Block) int {
+		if nilOnSuccess == nil || len(b.Succs) != 2 || len(b.Nodes) == 0 {
+			return -1
+		}
+		e, ok := b.Nodes[len(b.Nodes)-1].(ast.Expr)
+		if !ok {
+			return -1
+		}
+		be, ok := ast.Unparen(e).(*ast.BinaryExpr)
+		if !ok || (be.Op != token.EQL && be.Op != token.NEQ) {
+			return -1
+		}
+		info := nilOnSuccessInfo
+		isE := func(x ast.Expr) bool {
+			id, ok := ast.Unparen(x).(*ast.Ident)
+			return ok && nilOnSuccess[info.ObjectOf(id)]
+		}
+		if !(isE(be.X) && isNilExpr(info, be.Y)) && !(isE(be.Y) && isNilExpr(info, be.X)) {
+			return -1
+		}
+		if be.Op == token.EQL {
+			return 0
+		}
+		return 1
+	}
 	var walk func(b *cfg.Block)
 	walk = func(b *cfg.Block) {
 		if seen[b] || skip[b] {
 			return
 		}
 		seen[b] = true
+		if k := nilSide(b); k >= 0 {
+			walk(b.Succs[k])
+			return
+		}
 		for _, s := range b.Succs {
 			walk(s)
 		}
 	}
 	walk(from)
 	return seen
+}
+
+// errVarReturns: the blocks that end in a return whose last result is an error variable, and those variables.
+func errVarReturns(info *types.Info, g *cfg.CFG) ([]*cfg.Block, map[types.Object]bool) {
+	var out []*cfg.Block
+	objs := map[types.Object]bool{}
+	for _, b := range g.Blocks {
+		if !b.Live || len(b.Nodes) == 0 {
+			continue
+		}
+		r, ok := b.Nodes[len(b.Nodes)-1].(*ast.ReturnStmt)
+		if !ok || len(r.Results) == 0 {
+			continue
+		}
+		id, ok := ast.Unparen(r.Results[len(r.Results)-1]).(*ast.Ident)
+		if !ok {
+			continue
+		}
+		if v, ok := info.ObjectOf(id).(*types.Var); ok && isErrorT(v.Type()) {
+			out = append(out, b)
+			objs[v] = true
+		}
+	}
+	return out, objs
 }
 
 // cuts: removing the blocks of locs disconnects entry from every block in targets.
@@ -299,6 +358,12 @@ func rulePipeStages(c *Ctx) {
 			}
 			calls := cfgCallsDeep(c.P, pk, g, isStage, 0)
 			succ := successReturns(info, g)
+			// returns of an error variable end a success path when the variable is nil: with that assumed at every
+			// test of it, the error exits are unreachable and `if err == nil { err = step() }` chains are straight lines
+			ev, evObjs := errVarReturns(info, g)
+			succ = append(succ, ev...)
+			nilOnSuccess, nilOnSuccessInfo = evObjs, info
+			defer func() { nilOnSuccess, nilOnSuccessInfo = nil, nil }()
 			if len(succ) == 0 {
 				anchorFail("%s.%s has no success return", fork, kind)
 			}
@@ -431,8 +496,35 @@ func ruleSlotsOrder(c *Ctx) {
 	}
 	// guard before the loop: the target is refused exactly when the loop would not run (`current >= target`), in
 	// any spelling: same cut as the loop condition, refusal on the side where the condition is false
+	// the test that keeps the loop going: its condition, or for a bottom-tested `for { round; if done { return nil } }`
+	// the negation of that exit test
+	contCond, contNeg := loop.Cond, false
+	if contCond == nil {
+		for _, st := range loop.Body.List {
+			is, ok := st.(*ast.IfStmt)
+			if !ok || is.Else != nil || is.Init != nil || len(is.Body.List) != 1 {
+				continue
+			}
+			switch x := is.Body.List[0].(type) {
+			case *ast.ReturnStmt:
+				if len(x.Results) == 0 || isNilExpr(info, x.Results[len(x.Results)-1]) {
+					contCond, contNeg = is.Cond, true
+				}
+			case *ast.BranchStmt:
+				if x.Tok == token.BREAK && x.Label == nil {
+					contCond, contNeg = is.Cond, true
+				}
+			}
+		}
+	}
+	if contCond == nil {
+		anchorFail("ProcessSlots: the slot loop has no test")
+	}
 	guard := false
-	if lc, lp, lop := condCutOf(info, loop.Cond, nil); lc != "" {
+	if lc, lp, lop := condCutOf(info, contCond, nil); lc != "" {
+		if contNeg {
+			lop = negOp[lop]
+		}
 		contSide := cutSide(lp, lop)
 		for _, st := range cmpsIn(pk, fd, "common.ProcessSlots", nil, nil, nil, nil) {
 			if st.pos >= loop.Pos() || st.rop == 0 {
@@ -630,7 +722,7 @@ func ruleSlotsOrder(c *Ctx) {
 	{
 		var counter types.Object
 		var steps []ast.Stmt
-		ast.Inspect(loop.Cond, func(k ast.Node) bool {
+		ast.Inspect(contCond, func(k ast.Node) bool {
 			id, ok := k.(*ast.Ident)
 			if !ok {
 				return true
@@ -699,8 +791,14 @@ func ruleSlotsOrder(c *Ctx) {
 											return false
 										}
 										r, ok := m.(*ast.ReturnStmt)
-										if !ok || len(r.Results) < 2 || !isNilExpr(info, r.Results[len(r.Results)-1]) {
+										if !ok || len(r.Results) < 2 {
 											return true
+										}
+										// a success return: nil error, or the error of a last step handed on (return x, f())
+										if lastR := r.Results[len(r.Results)-1]; !isNilExpr(info, lastR) {
+											if cl, ok := ast.Unparen(lastR).(*ast.CallExpr); !ok || calleeFunc(info, cl) == nil {
+												return true
+											}
 										}
 										any = true
 										if p, ok := he.polyStop(r.Results[0], stop); !ok || !polyEq(p, want) {
@@ -751,7 +849,7 @@ func ruleSlotsOrder(c *Ctx) {
 		}
 	}
 	succ := successReturns(info, g)
-	if len(pbS) != 1 || !cuts(g, pb, succ) {
+	if len(pbS) == 0 || !cuts(g, pb, succ) {
 		c.bad("PostSlotTransition.ProcessBlock", fd.Pos(), "a success path skips ProcessBlock")
 	} else {
 		c.ok("PostSlotTransition.ProcessBlock", pb[0].call.Pos(), "on every success path")
@@ -762,38 +860,68 @@ func ruleSlotsOrder(c *Ctx) {
 		vs := vsS[0]
 		// negated result -> error in the frame the call is written in; governed by the validateResult flag (a boolean
 		// parameter of PostSlotTransition) somewhere along its chain of frames
-		neg, refuses := false, false
-		for p := vs.env.parents[ast.Node(vs.call)]; p != nil; p = vs.env.parents[p] {
-			if u, ok := p.(*ast.UnaryExpr); ok && u.Op == token.NOT {
-				neg = !neg
-			}
-			if ifs, ok := p.(*ast.IfStmt); ok && mentionsNode(ifs.Cond, vs.call) {
-				if neg && endsInErrorReturn(vs.env.info, ifs.Body, nil, nil) {
-					refuses = true
+		// a false result refuses: from the test the call stands in, the branch taken when the call is false ends in an
+		// error return on every path (decided on the control-flow graph of the frame the call is written in)
+		refuses := false
+		{
+			var owner *ast.FuncType
+			if vs.env == top {
+				owner = fd.Type
+			} else if f := calleeFuncOrNil(vs.env.up.info, vs.env.site); f != nil {
+				if hd := declOfFunc(pk, f); hd != nil {
+					owner = hd.Type
 				}
-				if eb, ok := ifs.Else.(*ast.BlockStmt); ok && !neg && endsInErrorReturn(vs.env.info, eb, nil, nil) {
-					refuses = true
+			}
+			// the condition expression the call belongs to, and whether the call stands under an odd number of `!`
+			var cond ast.Expr
+			odd := false
+			var n ast.Node = vs.call
+			for p := vs.env.parents[n]; p != nil; n, p = p, vs.env.parents[p] {
+				if u, ok := p.(*ast.UnaryExpr); ok && u.Op == token.NOT {
+					odd = !odd
+					continue
+				}
+				if _, ok := p.(*ast.ParenExpr); ok {
+					continue
+				}
+				if be, ok := p.(*ast.BinaryExpr); ok && (be.Op == token.LAND || be.Op == token.LOR) {
+					cond = n.(ast.Expr)
+					break
+				}
+				if is, ok := p.(*ast.IfStmt); ok && is.Cond == n {
+					cond = is.Cond
 				}
 				break
 			}
-		}
-		if !refuses {
+			if cond != nil && owner != nil {
+				if ok, _ := errReachesBranch(vs.env.info, vs.env.body, owner.Results, cond, odd); ok {
+					refuses = true
+				}
+			}
 			// valid := sig.Verify(...); if !valid { return err }
-			if as, ok := vs.env.parents[ast.Node(vs.call)].(*ast.AssignStmt); ok && len(as.Lhs) == 1 {
-				if id, ok := as.Lhs[0].(*ast.Ident); ok {
-					vobj := vs.env.info.ObjectOf(id)
-					ast.Inspect(vs.env.body, func(k ast.Node) bool {
-						ifs, ok := k.(*ast.IfStmt)
-						if !ok {
-							return true
-						}
-						if u, ok := ast.Unparen(ifs.Cond).(*ast.UnaryExpr); ok && u.Op == token.NOT {
-							if cid, ok := ast.Unparen(u.X).(*ast.Ident); ok && vs.env.info.Uses[cid] == vobj && endsInErrorReturn(vs.env.info, ifs.Body, nil, nil) {
-								refuses = true
+			if !refuses {
+				if as, ok := vs.env.parents[ast.Node(vs.call)].(*ast.AssignStmt); ok && len(as.Lhs) == 1 && owner != nil {
+					if id, ok := as.Lhs[0].(*ast.Ident); ok {
+						vobj := vs.env.info.ObjectOf(id)
+						ast.Inspect(vs.env.body, func(k ast.Node) bool {
+							ifs, ok := k.(*ast.IfStmt)
+							if !ok || refuses {
+								return true
 							}
-						}
-						return true
-					})
+							e := ast.Unparen(ifs.Cond)
+							neg := false
+							if u, ok := e.(*ast.UnaryExpr); ok && u.Op == token.NOT {
+								neg = true
+								e = ast.Unparen(u.X)
+							}
+							if cid, ok := e.(*ast.Ident); ok && vs.env.info.Uses[cid] == vobj {
+								if ok, _ := errReachesBranch(vs.env.info, vs.env.body, owner.Results, ifs.Cond, neg); ok {
+									refuses = true
+								}
+							}
+							return true
+						})
+					}
 				}
 			}
 		}
@@ -805,7 +933,25 @@ func ruleSlotsOrder(c *Ctx) {
 			}
 		}
 		switch {
-		case len(pbS) == 1 && vs.seq > pbS[0].seq:
+		case len(pbS) >= 1 && func() bool {
+			// some ProcessBlock that the validating path can reach runs before the check: one in the same or an enclosing
+			// branch (a ProcessBlock on the non-validating early return is another path)
+			for _, pbs := range pbS {
+				if pbs.seq < vs.seq {
+					exclusive := false
+					for _, cd := range pbs.conds() {
+						x, fr := cd.env.resolve(cd.e)
+						if id, ok := x.(*ast.Ident); ok && cd.neg && fr == top && isBoolParam(fd, info, id) {
+							exclusive = true // under !validateResult
+						}
+					}
+					if !exclusive {
+						return true
+					}
+				}
+			}
+			return false
+		}():
 			c.bad("PostSlotTransition.signature", vs.call.Pos(), "the block is processed before its signature is verified")
 		case !refuses:
 			c.bad("PostSlotTransition.signature", vs.call.Pos(), "a failed signature check does not return an error")
@@ -1067,6 +1213,14 @@ func ruleEngineVerdict(c *Ctx) {
 		switch {
 		case vu.errIf == nil || !endsInErrorReturn(info, vu.errIf.Body, nil, fd) || !precedes(parents, vu.errIf, set[0].call):
 			c.bad(key, vn[0].call.Pos(), "an engine error does not make ProcessExecutionPayload fail")
+		case func() bool {
+			// every path taken with the engine's error in hand ends in a return that is certainly an error: one that
+			// carries that error, or a freshly constructed one (errors.New / fmt.Errorf); a return of some other call's
+			// result (ctx.Err()) may be nil and would report success for a payload the engine never accepted
+			ok, _ := errReachesStrict(info, fd.Body, fd.Type.Results, vu.errIf.Cond, vu.errObj)
+			return !ok
+		}():
+			c.bad(key, vn[0].call.Pos(), "on an engine error some path returns a value that is not certainly an error (neither the engine's error nor a newly built one): ProcessExecutionPayload can report success for a payload the engine did not accept")
 		case vu.okIf == nil:
 			c.bad(key, vn[0].call.Pos(), "the engine's `invalid` verdict is not examined: an unapproved payload is accepted")
 		default:
